@@ -143,7 +143,8 @@ def k1(prog):
     # the option loop: the loop whose body calls getopt_long
     optloop = None
     for x in walk(main["body"]):
-        if x.get("k") in ("while", "for", "do") and any(c.get("fn") in ("getopt_long", "getopt") for c in calls(x["body"])):
+        if x.get("k") in ("while", "for", "do") and any(c.get("fn") in ("getopt_long", "getopt") for part in ("body", "c", "init", "inc", "var")
+                                                       if x.get(part) is not None for c in calls(x[part])):
             optloop = x
             break
     if optloop is None:
@@ -196,28 +197,50 @@ def k3(prog):
     body = main["body"]
     if body.get("k") != "try":
         raise Broken("main() is no longer a function-try-block (unmodelled shape)")
+    def values(e, depth=0):
+        """set of integer values the expression can take, from constants, enumerators, conditionals and the return statements of
+        called functions of the repository; None when some operand is not a constant"""
+        while isinstance(e, dict) and e.get("k") in ("cast", "paren") and isinstance(e.get("e"), dict) and "iv" not in e:
+            e = e["e"]
+        if not isinstance(e, dict):
+            return None
+        if "iv" in e and e.get("k") != "call":
+            return {int(e["iv"])}
+        if e.get("k") in ("int", "bool"):
+            return {int(e["v"])}
+        if e.get("k") == "cond":
+            a_, b_ = values(e["a"], depth), values(e["b"], depth)
+            return None if a_ is None or b_ is None else a_ | b_
+        if e.get("k") == "call" and depth < 4:
+            g = prog.funcs.get(e.get("fid"))
+            if g is None or g.get("body") is None:
+                return None
+            out = set()
+            rets_ = [r for r in walk_nolambda(g["body"]) if r.get("k") == "return"]
+            if not rets_:
+                return None
+            for r in rets_:
+                v = values(r.get("e"), depth + 1)
+                if v is None:
+                    return None
+                out |= v
+            return out
+        return None
     for x in walk_nolambda(body):
         if x.get("k") == "return":
             e = x.get("e")
-            vals = None
-            if isinstance(e, dict):
-                if e.get("k") == "cond":
-                    a, b = e["a"], e["b"]
-                    if isinstance(a, dict) and isinstance(b, dict) and "v" in a and "v" in b:
-                        vals = {a["v"], b["v"]}
-                    elif isinstance(a, dict) and isinstance(b, dict) and ("iv" in a or "v" in a) and ("iv" in b or "v" in b):
-                        vals = {a.get("iv", a.get("v")), b.get("iv", b.get("v"))}
-                elif "iv" in e or "v" in e:
-                    vals = {e.get("iv", e.get("v"))}
+            vals = values(e)
             key = "K3:return@%s" % x["l"]
             inst.append((key, {"values": sorted(vals) if vals else None}))
-            if vals is None or not vals <= {0, 1, 2}:
-                findings.append({"key": key, "where": x["l"], "msg": "main() returns `%s`, not a constant in {0,1,2}" % short(e), "detail": None})
+            if vals is None:
+                raise Broken("main() returns `%s` at %s, whose possible values are not constants (unmodelled)" % (short(e), x["l"]))
+            if not vals <= {0, 1, 2}:
+                findings.append({"key": key, "where": x["l"], "msg": "main() can return %s (`%s`), outside the documented exit statuses {0,1,2}" % (sorted(vals - {0, 1, 2}), short(e)), "detail": None})
     for h in body["handlers"]:
         rets = [x for x in walk_nolambda(h["body"]) if x.get("k") == "return"]
         key = "K3:handler(%s)" % h["t"]
         inst.append((key, {"returns": [short(r.get("e")) for r in rets]}))
-        ok = bool(rets) and all(isinstance(r.get("e"), dict) and r["e"].get("iv", r["e"].get("v")) == 2 for r in rets)
+        ok = bool(rets) and all(values(r.get("e")) == {2} for r in rets)
         # the handler must not fall off its end
         gb = CFG({"q": "main-handler", "l": h["l"], "body": h["body"]})
         falls = any(t == gb.exit.id and n.kind != "ret" for n in gb.nodes if n.id in gb.reachable() for t, _ in n.succs)
